@@ -18,7 +18,7 @@ def limits_value(spec):
     return tuple(opt(spec.get(k)) for k in order) + (NONE,)
 
 
-def run(run_, game, env, max_depth, limits):
+def run(run_, game, env, max_depth, limits, prune_asserts=False):
     """execute Search::search(&mut search, &SimpleEvaluator, max_depth) ; returns (ex, result, search_ptr)"""
     ex = run_.executor()
     A.install(ex, game, env)
@@ -26,6 +26,9 @@ def run(run_, game, env, max_depth, limits):
         ex.int_types = {'i16'}
     for c in game.pre:
         ex.assume(c)
+    if prune_asserts:
+        ex.enable_pruning(timeout_ms=1000)
+        ex.prune_mode = 'asserts'
     # where a log line comes from (bestmove: iter_deep, info: log_uci_info) and with which arguments
     env['info_lines'] = []
 
